@@ -187,7 +187,7 @@ def corr_wrapper(ctx, rng, drv):
         dim = int(rng.choice([2, 3]))
         cfg = rand_cfg(rng, name, dim, mode_choices=(1, 2, 7, 33, 64))
         nug_var = float(rng.choice([0.0, 0.0, 0.3, 2.5]))
-        npts = int(rng.choice([1, 2, 5, 17]))
+        npts = [1, max(1, dim - 1), dim, dim + 1, 5, 17][c % 6] if c % 12 < 6 else int(rng.choice([1, dim, dim + 1, 5]))
         pos = np.ascontiguousarray(rng.uniform(-10, 10, size=(dim, npts)) * cfg["len_scale"])
         case = dict(cfg, nugget=nug_var, pos=hexarr(pos))
         try:
@@ -218,7 +218,7 @@ def corr_wrapper(ctx, rng, drv):
             i = int(rng.integers(npts)); d = int(rng.integers(dim))
             v = drv.call("velocity", cfg["mean_u"], var, N, ks, z1, z2, np.ascontiguousarray(pos[:, i]), ("n", d))
             # (d) through SRF
-            srf = make_srf(cfg, nug_var)
+            srf = make_srf(cfg, 0.0)
             f = np.asarray(srf(tuple(pos), mesh_type="unstructured"))
             same_modes = same_bits(srf.generator._cov_sample, ks) and same_bits(srf.generator._z_1, z1)
         except Exception as e:
@@ -230,8 +230,8 @@ def corr_wrapper(ctx, rng, drv):
         ctx.sample(dict(stage="wrapper-correspondence", cfg=cfg, nugget=nug_var, n_points=npts))
         checks = [("__call__(add_nugget=False)", out0, mod0, zero), ("__call__ with nugget stream", out1, mod1, nug),
                   ("incompr_call on the kernel output", out1, mod1b, nug)]
-        if same_modes and nug_var == 0:
-            checks.append(("SRF(generator='VectorField') unstructured", f, mod0, zero))
+        if same_modes:
+            checks.append(("SRF(generator='VectorField') unstructured, %s points" % ("dim" if npts == dim else npts), f, mod0, zero))
         for what, a, b, ng in checks:
             total += 1
             b = np.asarray(b)
@@ -392,29 +392,43 @@ def run_divergence(ctx, cfg, x, stats=None):
                     min_grad=float(res[0]["grad"].min()), budget=float(res[0]["bound"].max())))
 
 
-def ensemble_case(ctx, cfg, M, seeds, npts, x):
+def ensemble_case(ctx, cfg, M, seeds, npts, x, history=False):
     """per-seed spatial averages of u_d and (u_d - mean_u e1_d)^2 over the points x; seeds are independent draws.
-    returns (mean stats, var stats): arrays (M, dim)"""
+    The generator is called directly with add_nugget=False and add_nugget=True (nugget 0: must agree bitwise).
+    history=True: before every draw the public attribute mean_u holds ANOTHER value (-2.7 mean_u) while the modes are
+    re-seeded and is re-assigned afterwards: the field must follow the current mean_u.
+    returns dict variant -> (mean stats, var stats) arrays (M, dim), model.var, model.var_raw, #bitwise disagreements"""
     from gstools.field.generator import IncomprRandMeth
     model = make_model(cfg["cls"], cfg["dim"], cfg["var"], cfg["len_scale"], 0.0, cfg.get("opt"))
     g = IncomprRandMeth(model, mean_velocity=cfg["mean_u"], mode_no=cfg["mode_no"], seed=int(seeds[0]))
     mu = np.zeros(cfg["dim"]); mu[0] = cfg["mean_u"]
-    ms = np.empty((M, cfg["dim"])); vs = np.empty((M, cfg["dim"]))
+    out = {v: (np.empty((M, cfg["dim"])), np.empty((M, cfg["dim"]))) for v in ("add_nugget=False", "add_nugget=True")}
+    differ = None
     for s in range(M):
+        if history:
+            g.mean_u = -2.7 * cfg["mean_u"]
         g.reset_seed(int(seeds[s]))
-        u = np.asarray(g(x))
-        ms[s] = u.mean(1)
-        vs[s] = ((u - mu[:, None]) ** 2).mean(1)
-    return ms, vs, float(model.var), float(model.var_raw)
+        if history:
+            g.mean_u = cfg["mean_u"]
+        us = {}
+        for v, flag in (("add_nugget=False", False), ("add_nugget=True", True)):
+            u = np.asarray(g(x, add_nugget=flag))
+            us[v] = u
+            out[v][0][s] = u.mean(1)
+            out[v][1][s] = ((u - mu[:, None]) ** 2).mean(1)
+        if differ is None and not C.bit_equal(us["add_nugget=False"], us["add_nugget=True"]):
+            differ = int(seeds[s])
+    return out, float(model.var), float(model.var_raw), differ
 
 
-def run_ensemble(ctx, cfg, M, seeds, x):
-    case = dict(cfg, M=M, seeds_first=[int(s) for s in seeds[:5]], seed_gen="C.Rng(VERIF_SEED,'C16')", x=hexarr(x))
+def run_ensemble(ctx, cfg, M, seeds, x, history=False):
+    case = dict(cfg, M=M, seeds_first=[int(s) for s in seeds[:5]], seed_gen="C.Rng(VERIF_SEED,'C16')", x=hexarr(x),
+                history=("mean_u = -2.7 * mean_u; reset_seed(s); mean_u = mean_u" if history else "reset_seed(s)"))
     dim = cfg["dim"]
     try:
         with warnings.catch_warnings():
             warnings.simplefilter("ignore")
-            ms, vs, model_var, model_var_raw = ensemble_case(ctx, cfg, M, seeds, x.shape[1], x)
+            out, model_var, model_var_raw, differ = ensemble_case(ctx, cfg, M, seeds, x.shape[1], x, history)
     except Exception as e:
         ctx.violation("probe: ensemble", "unexpected exception %r" % (e,), case, key="ens:exception")
         return
@@ -422,75 +436,220 @@ def run_ensemble(ctx, cfg, M, seeds, x):
     # the variance the field has to carry is the model's variance model.var (= var_raw * var_factor(), not var_raw)
     target = cfg["mean_u"] ** 2 * model_var * np.array(SPLIT[dim])
     case = dict(case, model_var=model_var, model_var_raw=model_var_raw)
-    m_est, m_se = ms.mean(0), ms.std(0, ddof=1) / math.sqrt(M)
-    v_est, v_se = vs.mean(0), vs.std(0, ddof=1) / math.sqrt(M)
-    ctx.count(("ensemble", cfg["cls"], dim, cfg["mode_no"]), n=M,
-              hist=dict(stage="ensemble-probe", cls=cfg["cls"], dim=dim, mode_no=cfg["mode_no"],
+    ctx.count(("ensemble", cfg["cls"], dim, cfg["mode_no"], history), n=M,
+              hist=dict(stage="ensemble-probe", cls=cfg["cls"], dim=dim, mode_no=cfg["mode_no"], history=history,
                         var_factor=("%.2g" % (model_var / model_var_raw)) if cfg["cls"] in TPL else "1"))
-    ctx.sample(dict(stage="ensemble-probe", cfg=cfg, seeds=M, mean=[float(v) for v in m_est], mean_se=[float(v) for v in m_se],
-                    var_over_target=[float(v) for v in v_est / target], var_se_over_target=[float(v) for v in v_se / target]), limit=9)
-    for d in range(dim):
-        if abs(m_est[d] - mu[d]) > 6 * m_se[d] + 1e-12 * abs(cfg["mean_u"]):
-            ctx.violation("probe: ensemble mean", "component %d: mean over %d seeds %.5g, expected %.5g, standard error %.3g (%.1f SE)"
-                          % (d, M, m_est[d], mu[d], m_se[d], abs(m_est[d] - mu[d]) / m_se[d]),
-                          dict(case, component=d, estimate=float(m_est[d]), expected=float(mu[d]), se=float(m_se[d])),
-                          key="ens-mean:%s:dim%d" % (cfg["cls"], dim))
-        if abs(v_est[d] - target[d]) > 6 * v_se[d]:
-            ctx.violation("probe: component variance split",
-                          "component %d: variance over %d seeds %.5g, expected mean_u^2 * model.var * %.4f = %.5g, standard error %.3g (%.1f SE)"
-                          % (d, M, v_est[d], SPLIT[dim][d], target[d], v_se[d], abs(v_est[d] - target[d]) / v_se[d]),
-                          dict(case, component=d, estimate=float(v_est[d]), expected=float(target[d]), se=float(v_se[d])),
-                          key="ens-var:%s:dim%d" % (cfg["cls"], dim))
-    return float((6 * v_se / target).max())
+    worst = 0.0
+    for variant, (ms, vs) in out.items():
+        m_est, m_se = ms.mean(0), ms.std(0, ddof=1) / math.sqrt(M)
+        v_est, v_se = vs.mean(0), vs.std(0, ddof=1) / math.sqrt(M)
+        worst = max(worst, float((6 * v_se / target).max()))
+        if variant == "add_nugget=True":
+            ctx.sample(dict(stage="ensemble-probe", cfg=cfg, seeds=M, history=history, mean=[float(v) for v in m_est],
+                            mean_se=[float(v) for v in m_se], var_over_target=[float(v) for v in v_est / target],
+                            var_se_over_target=[float(v) for v in v_se / target]), limit=9)
+        for d in range(dim):
+            if abs(m_est[d] - mu[d]) > 6 * m_se[d] + 1e-12 * abs(cfg["mean_u"]):
+                ctx.violation("probe: ensemble mean (generator call, %s)" % variant,
+                              "component %d: mean over %d seeds %.5g, expected mean_u e1 = %.5g, standard error %.3g (%.1f SE)"
+                              % (d, M, m_est[d], mu[d], m_se[d], abs(m_est[d] - mu[d]) / max(m_se[d], 1e-300)),
+                              dict(case, variant=variant, component=d, estimate=float(m_est[d]), expected=float(mu[d]), se=float(m_se[d])),
+                              key="ens-mean:%s:dim%d" % (cfg["cls"], dim))
+            if abs(v_est[d] - target[d]) > 6 * v_se[d]:
+                ctx.violation("probe: component variance split (generator call, %s)" % variant,
+                              "component %d: variance over %d seeds %.5g, expected mean_u^2 * model.var * %.4f = %.5g, standard error %.3g (%.1f SE)"
+                              % (d, M, v_est[d], SPLIT[dim][d], target[d], v_se[d], abs(v_est[d] - target[d]) / max(v_se[d], 1e-300)),
+                              dict(case, variant=variant, component=d, estimate=float(v_est[d]), expected=float(target[d]), se=float(v_se[d])),
+                              key="ens-var:%s:dim%d" % (cfg["cls"], dim))
+    if differ is not None:
+        ctx.violation("probe: generator call add_nugget=False vs add_nugget=True (nugget 0)",
+                      "with a zero nugget the two calls must return the same field; they differ for seed %d" % differ,
+                      dict(case, seed_of_difference=differ), key="ens:add_nugget:%s:dim%d" % (cfg["cls"], dim))
+    return worst
 
 
 def probe_ensemble(ctx, rng):
     thorough = ctx.tier == "thorough"
     if thorough:
-        plan = [(n, d, 150 if n != "TPLStable" else 100) for n in CLASSES for d in (2, 3)]
-        plan[0] = ("Gaussian", 2, 3000)
-        plan[2] = ("Exponential", 2, 3000)
+        plan = [(n, d, 150 if n != "TPLStable" else 100, (k % 2 == 1)) for k, (n, d) in
+                enumerate((n, d) for n in CLASSES for d in (2, 3))]
+        plan[0] = ("Gaussian", 2, 3000, False)
+        plan[2] = ("Exponential", 2, 3000, True)
     else:
         # Gaussian / Exponential always; the other classes rotate with VERIF_SEED (every class is reached over the seeds,
-        # every class on every run in the thorough tier); one truncated power law (var_factor != 1) on every run
+        # every class on every run in the thorough tier); one truncated power law (var_factor != 1) on every run;
+        # one configuration with a re-assignment history of the public mean_u
         others = [c for c in CLASSES if c not in ("Gaussian", "Exponential") + TPL]
         pick = others[int(rng.integers(len(others)))]
         tpl = TPL[int(rng.integers(len(TPL)))]
-        plan = [("Gaussian", 2, 1000), ("Exponential", 2, 1000), ("Gaussian", 3, 100), (pick, int(rng.choice([2, 3])), 120),
-                (tpl, int(rng.choice([2, 3])), 50 if tpl == "TPLStable" else 120)]
+        plan = [("Gaussian", 2, 800, False), ("Exponential", 2, 800, True), ("Gaussian", 3, 100, False),
+                (pick, int(rng.choice([2, 3])), 120, bool(rng.integers(2))),
+                (tpl, int(rng.choice([2, 3])), 50 if tpl == "TPLStable" else 120, bool(rng.integers(2)))]
     worst = 0.0
-    for name, dim, M in plan:
+    for name, dim, M, history in plan:
         cfg = rand_cfg(rng, name, dim, mode_choices=(16, 64, 100))
         seeds = rng.choice(2 ** 31 - 1, size=M, replace=False)
         x = np.ascontiguousarray(rng.uniform(-50, 50, size=(dim, 24)) * cfg["len_scale"])
-        w = run_ensemble(ctx, cfg, M, seeds, x)
+        w = run_ensemble(ctx, cfg, M, seeds, x, history)
         worst = max(worst, w or 0.0)
-    ctx.notes.append("ensemble probe: %d configurations; the 6-standard-error window of the variance fractions was at most "
-                     "%.0f%% of the expected value (a wrong projector such as 1/2:1/2 or 3/8:3/8 in 2-D is off by >= 33%%)"
-                     % (len(plan), 100 * worst))
+    ctx.notes.append("ensemble probe: %d configurations (direct generator calls with add_nugget False and True; %d with a mean_u "
+                     "re-assignment history); the 6-standard-error window of the variance fractions was at most %.0f%% of the "
+                     "expected value (a wrong projector such as 1/2:1/2 or 3/8:3/8 in 2-D is off by >= 33%%)"
+                     % (len(plan), sum(1 for p_ in plan if p_[3]), 100 * worst))
 
 
-def probe_structured(ctx, rng):
-    """SRF on a structured grid = the same field evaluated point by point (the field is a function of the point)"""
+STRUCT_SHAPES = {2: [(2, 1), (1, 2), (1, 1), (3, 1), (2, 2), (3, 2)],
+                 3: [(3, 1, 1), (1, 3, 1), (1, 1, 3), (1, 1, 1), (2, 1, 1), (2, 2, 1), (2, 3, 2)]}
+
+
+def probe_pointwise(ctx, rng):
+    """the field is a function of the point: the same locations evaluated inside a larger set, alone, in groups of
+    dim-1, dim, dim+1 points, through the generator directly and on structured meshes (incl. meshes with exactly dim
+    nodes) must give bitwise the same vectors, component d in row d."""
+    ncfg = 4 if ctx.tier == "thorough" else 1
     for dim in (2, 3):
-        name = CLASSES[int(rng.integers(len(CLASSES)))]
-        cfg = rand_cfg(rng, name, dim, mode_choices=(7, 64))
-        axes = [np.sort(rng.uniform(-5, 5, size=int(rng.integers(2, 5))) * cfg["len_scale"]) for _ in range(dim)]
+        for _ in range(ncfg):
+            name = CLASSES[int(rng.integers(len(CLASSES)))]
+            cfg = rand_cfg(rng, name, dim, mode_choices=(2, 7, 64))
+            P = 2 * dim + 3
+            X = np.ascontiguousarray(rng.uniform(-5, 5, size=(dim, P)) * cfg["len_scale"])
+            case = dict(cfg, X=hexarr(X))
+            try:
+                with warnings.catch_warnings():
+                    warnings.simplefilter("ignore")
+                    srf = make_srf(cfg)
+                    ref = np.asarray(srf(tuple(X), mesh_type="unstructured")).copy()      # P != dim points
+                    if ref.shape != (dim, P):
+                        ctx.violation("probe: pointwise", "SRF output shape %r for %d points in %d-D" % (ref.shape, P, dim), case,
+                                      key="pointwise:shape")
+                        continue
+                    for g in sorted({1, max(1, dim - 1), dim, dim + 1}):
+                        for start in range(0, P - g + 1, g):
+                            idx = list(range(start, start + g))
+                            sub = np.ascontiguousarray(X[:, idx])
+                            outs = [("SRF unstructured", np.asarray(srf(tuple(sub), mesh_type="unstructured"))),
+                                    ("generator call", np.asarray(srf.generator(sub, add_nugget=False))),
+                                    ("generator call with (zero) nugget", np.asarray(srf.generator(sub)))]
+                            for what, o in outs:
+                                ctx.count(("pointwise", what, dim, g), hist=dict(stage="pointwise-probe", dim=dim, n_points=g, via=what))
+                                if o.shape != (dim, g) or not C.bit_equal(o, ref[:, idx]):
+                                    ctx.violation("probe: pointwise evaluation (%s, %d points in %d-D)" % (what, g, dim),
+                                                  "the vectors returned for points %s evaluated as a group of %d differ from the vectors "
+                                                  "of the same points evaluated inside a set of %d points (row d = component d)" % (idx, g, P),
+                                                  dict(case, group=idx, via=what, got=hexarr(o), expected=hexarr(ref[:, idx])),
+                                                  key="pointwise:%s:n=%s" % (what, "dim" if g == dim else g))
+                    for shp in STRUCT_SHAPES[dim] if ctx.tier == "thorough" else STRUCT_SHAPES[dim][:5]:
+                        axes = [np.sort(rng.uniform(-5, 5, size=k) * cfg["len_scale"]) for k in shp]
+                        fs = np.asarray(srf.structured(axes))
+                        grid = np.meshgrid(*axes, indexing="ij")
+                        pts = np.array([g_.ravel() for g_ in grid])
+                        extra = np.ascontiguousarray(np.hstack([pts, X[:, :dim + 2]]))   # never exactly dim points
+                        fu = np.asarray(srf(tuple(extra), mesh_type="unstructured"))[:, :pts.shape[1]]
+                        ctx.count(("structured", dim, shp), hist=dict(stage="pointwise-probe", dim=dim, n_points=pts.shape[1], via="structured"))
+                        if fs.shape != (dim,) + tuple(shp) or not C.bit_equal(fs.reshape(dim, -1), fu):
+                            ctx.violation("probe: structured mesh %r vs pointwise evaluation (%d-D)" % (shp, dim),
+                                          "the vector field on a structured mesh with %d nodes differs from its evaluation at the nodes"
+                                          % pts.shape[1], dict(case, axes=[hexarr(a) for a in axes], got=hexarr(fs)),
+                                          key="pointwise:structured:n=%s" % ("dim" if pts.shape[1] == dim else pts.shape[1]))
+            except Exception as e:
+                ctx.violation("probe: pointwise", "unexpected exception %r" % (e,), case, key="pointwise:exception")
+
+
+def apply_history(rng, cfg):
+    """a second configuration of the same class reached by re-assigning public parameters (changes well above the
+    isclose tolerance of the model comparison); returns (cfgB, ordered list of re-assigned names)"""
+    names = [n for n in ("mean_u", "var", "len_scale", "mode_no", "seed") if rng.random() < 0.6] or ["mean_u"]
+    B = dict(cfg)
+    if "mean_u" in names:
+        B["mean_u"] = float(cfg["mean_u"] * rng.choice([-3.1, -0.4, 0.3, 2.3]))
+    if "var" in names:
+        B["var"] = float(cfg["var"] * rng.choice([0.3, 2.5]))
+    if "len_scale" in names:
+        B["len_scale"] = float(cfg["len_scale"] * rng.choice([0.4, 1.9]))
+    if "mode_no" in names:
+        B["mode_no"] = int(cfg["mode_no"] + rng.choice([1, 9, 30]))
+    if "seed" in names:
+        B["seed"] = int(rng.integers(0, 2 ** 31 - 1))
+    first = [n for n in ("len_scale", "var") if n in names]          # var last of the two: var = var_raw * var_factor(len_scale)
+    rest = [n for n in names if n not in first]
+    rng.shuffle(rest)
+    return B, first + rest
+
+
+def probe_history(ctx, rng):
+    """re-assigning mean_u / var / len_scale / mode_no / seed on an EXISTING SRF or generator and evaluating again must give
+    the field of a freshly built object with the current parameters (deterministic: bitwise), in particular mean
+    mean_u_current e1 and variances mean_u_current^2 var_current q_d"""
+    from gstools.field.generator import IncomprRandMeth
+    ncfg = 24 if ctx.tier == "thorough" else 8
+    fixed = ["Gaussian", "Exponential", "TPLExponential"]
+    followups = []
+    for c in range(ncfg):
+        name = fixed[c] if c < len(fixed) else CLASSES[int(rng.integers(len(CLASSES)))]
+        dim = int(rng.choice([2, 3]))
+        A = rand_cfg(rng, name, dim, mode_choices=(2, 7, 33, 64))
+        B, order = apply_history(rng, A)
+        npts = int(rng.choice([1, dim, 5]))
+        pos = np.ascontiguousarray(rng.uniform(-10, 10, size=(dim, npts)) * A["len_scale"])
+        case = dict(start=A, reassigned=order, current=B, pos=hexarr(pos))
         try:
             with warnings.catch_warnings():
                 warnings.simplefilter("ignore")
-                srf = make_srf(cfg)
-                fs = np.asarray(srf.structured(axes))
-                grid = np.meshgrid(*axes, indexing="ij")
-                fu = np.asarray(srf(tuple(g.ravel() for g in grid), mesh_type="unstructured")).reshape(fs.shape)
+                # --- through SRF
+                srf = make_srf(A)
+                srf(tuple(pos), mesh_type="unstructured")
+                call_seed = np.nan
+                for n in order:
+                    if n == "mean_u":
+                        srf.generator.mean_u = B["mean_u"]
+                    elif n == "var":
+                        srf.model.var = B["var"]
+                    elif n == "len_scale":
+                        srf.model.len_scale = B["len_scale"]
+                    elif n == "mode_no":
+                        srf.generator.mode_no = B["mode_no"]
+                    elif n == "seed":
+                        call_seed = B["seed"]
+                got = np.asarray(srf(tuple(pos), seed=call_seed, mesh_type="unstructured"))
+                fresh = np.asarray(make_srf(B)(tuple(pos), mesh_type="unstructured"))
+                # --- generator alone
+                mA = make_model(name, dim, A["var"], A["len_scale"], 0.0, A["opt"])
+                mB = make_model(name, dim, B["var"], B["len_scale"], 0.0, B["opt"])
+                g = IncomprRandMeth(mA, mean_velocity=A["mean_u"], mode_no=A["mode_no"], seed=A["seed"])
+                g(pos)
+                for n in order:
+                    if n == "mean_u":
+                        g.mean_u = B["mean_u"]
+                    elif n in ("var", "len_scale"):
+                        g.update(mB)
+                    elif n == "mode_no":
+                        g.mode_no = B["mode_no"]
+                    elif n == "seed":
+                        g.seed = B["seed"]
+                got_g = np.asarray(g(pos, add_nugget=False))
+                fresh_g = np.asarray(IncomprRandMeth(mB, mean_velocity=B["mean_u"], mode_no=B["mode_no"], seed=B["seed"])(pos, add_nugget=False))
         except Exception as e:
-            ctx.violation("probe: structured", "unexpected exception %r" % (e,), dict(cfg), key="struct:exception")
+            ctx.violation("probe: history", "unexpected exception %r" % (e,), case, key="history:exception")
             continue
-        ctx.count(("structured", name, dim), hist=dict(stage="structured-probe", cls=name, dim=dim))
-        if fs.shape != (dim,) + tuple(len(a) for a in axes) or not C.bit_equal(fs, fu):
-            ctx.violation("probe: structured grid vs pointwise evaluation",
-                          "the vector field on a structured grid differs from its evaluation at the grid points",
-                          dict(cfg, axes=[hexarr(a) for a in axes]), key="struct:%s" % name)
+        ctx.count(("history", name, dim, tuple(sorted(order))), hist=dict(stage="history-probe", cls=name, dim=dim,
+                  reassigned="+".join(sorted(order))))
+        ctx.sample(dict(stage="history-probe", start=A, reassigned=order, current=B), limit=12)
+        for what, a, b in (("SRF", got, fresh), ("generator", got_g, fresh_g)):
+            if a.shape != b.shape or not C.bit_equal(a, b):
+                ctx.violation("probe: %s after re-assigning %s vs freshly built object" % (what, ", ".join(order)),
+                              "the field evaluated after re-assigning public parameters of an existing %s is not the field of the "
+                              "current parameters (mean_u_current e1 + mean_u_current sqrt(var_current/N) * kernel sum): max |diff| %.3g"
+                              % (what, float(np.max(np.abs(a - b))) if a.shape == b.shape else float("nan")),
+                              dict(case, via=what, got=hexarr(a), fresh=hexarr(b)), key="history:%s:%s" % (what, "+".join(sorted(order))))
+                if "mean_u" in order:
+                    followups.append(B)
+                break
+    for cfg in followups[:1]:
+        # statistical confirmation on that configuration: seeds drawn while mean_u holds another value
+        cfg2 = dict(cfg, mode_no=64)
+        M = 100 if cfg["cls"] == "TPLStable" else 250
+        xs = np.ascontiguousarray(rng.uniform(-50, 50, size=(cfg["dim"], 24)) * cfg["len_scale"])
+        run_ensemble(ctx, cfg2, M, rng.choice(2 ** 31 - 1, size=M, replace=False), xs, history=True)
 
 
 def probe_sphere(ctx, rng):
@@ -581,7 +740,8 @@ def run(ctx):
         stages = ([("kernel correspondence", lambda: corr_kernel(ctx, rng, drv)),
                    ("wrapper correspondence", lambda: corr_wrapper(ctx, rng, drv))] if drv is not None else []) + [
                   ("divergence probe", lambda: probe_divergence(ctx, rng)),
-                  ("structured probe", lambda: probe_structured(ctx, rng)),
+                  ("pointwise probe", lambda: probe_pointwise(ctx, rng)),
+                  ("history probe", lambda: probe_history(ctx, rng)),
                   ("sample_sphere parameterisation", lambda: probe_sphere(ctx, rng)),
                   ("ensemble probe", lambda: probe_ensemble(ctx, rng))]
         for nm, fn in stages:
@@ -608,7 +768,8 @@ def replay(ctx, path):
     elif stage.startswith("probe: ensemble") or stage.startswith("probe: component variance"):
         rng = C.Rng(rec.get("seed", ctx.seed), "C16-replay")
         M = int(case.get("M", 300))
-        run_ensemble(ctx, cfg, M, rng.choice(2 ** 31 - 1, size=M, replace=False), unhex(case["x"]))
+        run_ensemble(ctx, cfg, M, rng.choice(2 ** 31 - 1, size=M, replace=False), unhex(case["x"]),
+                     history=str(case.get("history", "")).startswith("mean_u ="))
     else:
         run(ctx)
     return ctx.finish()
